@@ -87,6 +87,9 @@ CARRIERS = {
     "bq_starts": (_t("> b\n"), "quote"),
     "bq_two_spaces": (_t(">  two spaces\n"), "quote"),
     "bq_list": (_t("> - a\n>   - b\n>     text"), "quote"),
+    # fix mode fails on this one by itself (the Markdown rebuilder raises IndexError with two
+    # block quotes still open): a natural mid-rebuild failure for history scenarios
+    "nat_regen_fail": (_t("> > [link]: /url\n>\n> * this is level 1\n>    * this is level 2\n"), "quote"),
     "bq_lazy": (_t("> a\nlazy\n"), "quote"),
     # --- whitespace counters ----------------------------------------------------
     "ws_trailing_eof": (_t("text   "), "ws"),
